@@ -121,7 +121,9 @@ func (r *redisStore) SetTokenResponse(ctx context.Context, sessionID string, tok
 		return err
 	}
 
-	return r.refreshExpiration(ctx, sessionID, now)
+	// The session may already exist with an earlier creation time (HSetNX keeps it): let the expiration
+	// be computed from the stored creation time, not from the time of this write.
+	return r.refreshExpiration(ctx, sessionID, time.Time{})
 }
 
 func (r *redisStore) GetTokenResponse(ctx context.Context, sessionID string) (*TokenResponse, error) {
@@ -178,7 +180,9 @@ func (r *redisStore) SetAuthorizationState(ctx context.Context, sessionID string
 		return err
 	}
 
-	return r.refreshExpiration(ctx, sessionID, now)
+	// The session may already exist with an earlier creation time (HSetNX keeps it): let the expiration
+	// be computed from the stored creation time, not from the time of this write.
+	return r.refreshExpiration(ctx, sessionID, time.Time{})
 }
 
 func (r *redisStore) GetAuthorizationState(ctx context.Context, sessionID string) (*AuthorizationState, error) {
